@@ -93,6 +93,8 @@ def main(argv=None):
                     continue
                 if a.unit and not re.search(a.unit, name):
                     continue
+                if name in metas:
+                    continue          # the same unit re-registered through an import of another contract module
                 jobs.append((m, name))
                 metas[name] = meta
     except Exception as e:
@@ -105,7 +107,7 @@ def main(argv=None):
         return 3
 
     results = runner.run_units(jobs, procs=a.procs or None, timeout_ms=timeout_ms, use_cvc5=(tier == "thorough"),
-                               while_bound=spec.get("while_bound", 16),
+                               while_bound=spec.get("while_bound", 100),
                                unit_timeout_s=(600 if tier == "quick" else 3000)) if jobs else []
 
     # ---------------------------------------------------------------- classify
@@ -149,6 +151,8 @@ def main(argv=None):
         n_vio_before = len(violations)
         if r.bounded:
             bounded_units.append(uname)
+            if not meta.get("bounded"):
+                undecided.append((uname, "a while-loop exceeded the unrolling bound on some path; nothing is claimed beyond it"))
         for o in r.obligations:
             n_ob += 1
             full = "%s/%s" % (uname, o.name)
